@@ -17,9 +17,11 @@ Proved here (text layer):
   (a body alteration is rejected unless the 48-bit checksum collides: harness sweep);
 * Specifier (strconv.Quote/Unquote with UTF-8 decoding, all 2^128 values), UnlockKey,
   ChainIndex, ProtocolVersion, Work: round trip;
-* SpendPolicy.String → ParseSpendPolicy: round trip for every policy EXCEPT the two
-  corners F2 / F3, which are explicit hypotheses of `c20_policy_string_roundtrip_partial`
-  and are refuted on the model by `c20_policy_string_cex_sigcount` / `_cex_specifier`.
+* SpendPolicy.String → ParseSpendPolicy: `c20_policy_string_roundtrip`, for every policy
+  value, now that the source has both repairs (`tie_policy_repairs`); the defects F2 / F3 of
+  the parser as first found are kept as statements about those parser variants
+  (`c20_policy_string_cex_sigcount`, `c20_policy_string_cex_specifier`), and
+  `c20_policy_string_roundtrip_partial` is the form that holds for every variant.
 
 Not proved here: the JSON layer (custom marshalers, the ApplyUpdate/RevertUpdate form —
 finding F1 — and the resolution `type` splice).  It is checked on the real code by the
@@ -335,10 +337,59 @@ theorem c20_unlockkey_roundtrip (hi : Nat → Bool) (n : Nat) (uk : UnlockKey) (
 example : ukText (fun _ => false) ⟨[97, 58, 98, 0], [0xab]⟩ = ofString "\"a:b\":ab"
     ∧ parseUk 4 (ukText (fun _ => false) ⟨[97, 58, 98, 0], [0xab]⟩) = some ⟨[97, 58, 98, 0], [0xab]⟩ := by decide
 
-/-! ## SpendPolicy.String / ParseSpendPolicy: the two corners that do NOT round-trip -/
+/-! ## SpendPolicy.String / ParseSpendPolicy -/
 
 /-- no rune above U+00FF is printable: enough for texts without such runes -/
 def hi0 : Nat → Bool := fun _ => false
+
+/-- the parser configuration read from the source has the shape the proofs are written for
+    (delimiter set "(),[]", 64-bit heights and timelocks, 8-bit thresholds, 16-byte
+    specifiers); signature-count width and the quoted-key step are left to the source -/
+theorem tie_policy_cfg (hi : Nat → Bool) : CfgStd (goCfg hi) :=
+  ⟨rfl, rfl, rfl, rfl, rfl⟩
+
+/-- the unlock-key reader is the one the model was written for -/
+theorem tie_policy_unlockkey_shape :
+    (Gen.FactsText.ukQuotedPrefix = true ∧ Gen.FactsText.parseUnlockKeyCalls =
+      ["len", "nextToken", "strconv.QuotedPrefix", "strings.HasPrefix", "strings.TrimSpace", "uk.UnmarshalText"])
+    ∨ (Gen.FactsText.ukQuotedPrefix = false ∧ Gen.FactsText.parseUnlockKeyCalls = ["nextToken", "uk.UnmarshalText"]) := by
+  decide
+
+/-- BOTH repairs are in the source: the `uc` signature count is read with the printer's 64
+    bits (F2) and a quoted key specifier is lifted off the input before tokenizing (F3).
+    A regression of either breaks this tie (and with it `c20_policy_string_roundtrip`). -/
+theorem tie_policy_repairs : Gen.FactsText.ucSigBits = 64 ∧ Gen.FactsText.ukQuotedPrefix = true := by decide
+
+/-- `ParseSpendPolicy(p.String()) = p` for EVERY policy value: all seven kinds, nested
+    thresholds, 64-bit counts, and `uc` keys with any algorithm specifier (quoted,
+    with delimiters, quotes, backslashes, arbitrary bytes) and any key length.
+    (`After` times are Unix seconds; `hi` is the IsPrint table, arbitrary.) -/
+theorem c20_policy_string_roundtrip (hi : Nat → Bool) (p : Policy) (hwf : p.WF) :
+    parsePolicy (goCfg hi) (Policy.str hi p) = some p := by
+  have hsig : p.SigFits (goCfg hi).ucSigBits := by
+    show p.SigFits Gen.FactsText.ucSigBits
+    rw [tie_policy_repairs.1]; exact sigFits_of_wf p hwf
+  exact parsePolicy_str (tie_policy_cfg hi) hi p hwf hsig (Or.inl tie_policy_repairs.2)
+
+/-- The same for any configuration of the standard shape, with the weakest side
+    conditions: (F2) every `uc` count fits the bit size the parser uses; (F3) the parser
+    has the quoted-key step OR no key text contains a delimiter.  This is the form that
+    remains true of the parser as first found (8 bits, no quoted-key step). -/
+theorem c20_policy_string_roundtrip_partial (cfg : Cfg) (hc : CfgStd cfg) (hi : Nat → Bool) (p : Policy)
+    (hwf : p.WF) (hsig : p.SigFits cfg.ucSigBits) (hkeys : cfg.quotedKeys = true ∨ p.KeysSafe hi) :
+    parsePolicy cfg (Policy.str hi p) = some p :=
+  parsePolicy_str hc hi p hwf hsig hkeys
+
+/-- 64 bits make exclusion F2 vacuous -/
+theorem c20_policy_string_sigfits_64 (p : Policy) (hwf : p.WF) : p.SigFits 64 := sigFits_of_wf p hwf
+
+/-- exclusion F3 only bites for quoted specifiers: alphanumeric algorithm names are always safe -/
+theorem c20_policy_string_keys_safe_alnum (hi : Nat → Bool) (tl sg : Nat) (ks : List UnlockKey)
+    (h : ∀ k ∈ ks, (trimZeros k.alg).all isAlnum = true) : (Policy.uc tl ks sg).KeysSafe hi := by
+  intro k hk
+  exact ukText_safe_of_alnum hi k (h k hk)
+
+/-! ### the two defects, kept as statements about the parser variants that had them -/
 
 /-- `uc(0,[],300)`: 300 signatures required -/
 def polSig300 : Policy := .uc 0 [] 300
@@ -349,87 +400,48 @@ def polSpecComma : Policy := .uc 0 [⟨[97, 44, 98, 0, 0, 0, 0, 0, 0, 0, 0, 0, 0
 theorem polSig300_str : Policy.str hi0 polSig300 = ofString "uc(0,[],300)" := by decide
 theorem polSpecComma_str : Policy.str hi0 polSpecComma = ofString "uc(0,[\"a,b\":01],1)" := by decide
 
-theorem cex_sigcount_8 : (parsePolicy (goCfgWith 8 hi0) (Policy.str hi0 polSig300)).isNone = true := by decide
+theorem cex_sigcount_8 (q : Bool) : (parsePolicy (goCfgWith 8 q hi0) (Policy.str hi0 polSig300)).isNone = true := by
+  cases q <;> decide
 
-/-- F2. While the parser reads the `uc` signature count with 8 bits (the generated fact),
-    the printed form of a policy requiring 300 signatures is refused by the parser.
-    Conditional on the fact, so it stays a theorem (vacuously) once the source says 64. -/
+/-- F2. Whenever the parser reads the `uc` signature count with 8 bits (the generated
+    fact), the printed form of a policy requiring 300 signatures is refused.  Conditional
+    on the fact: vacuous now that the source says 64. -/
 theorem c20_policy_string_cex_sigcount (h : Gen.FactsText.ucSigBits = 8) :
     (parsePolicy (goCfg hi0) (Policy.str hi0 polSig300)).isNone = true := by
   unfold goCfg
   rw [h]
-  exact cex_sigcount_8
+  exact cex_sigcount_8 _
 
-/-- with 64 bits the same policy parses back (what the repair gives) -/
-theorem c20_policy_string_sigcount_64 : (parsePolicy (goCfgWith 64 hi0) (Policy.str hi0 polSig300)).isSome = true := by decide
-
-/-- F3. A `uc` key whose algorithm specifier needs quoting and contains a delimiter: the
-    tokenizer (as tied by `tie_policy_tokenizer`: cut at the first of "(),[]", unaware of
-    quotes) splits inside the quoted specifier and the parser refuses its own output —
-    whatever the signature-count width. -/
+/-- F3. Without the quoted-key step the tokenizer (cut at the first of "(),[]", unaware of
+    quotes) splits inside the quoted specifier "a,b" and the parser refuses its own output,
+    whatever the signature-count width; with the step it reads it back. -/
 theorem c20_policy_string_cex_specifier :
-    (parsePolicy (goCfgWith 8 hi0) (Policy.str hi0 polSpecComma)).isNone = true
-    ∧ (parsePolicy (goCfgWith 64 hi0) (Policy.str hi0 polSpecComma)).isNone = true := by decide
+    (parsePolicy (goCfgWith 8 false hi0) (Policy.str hi0 polSpecComma)).isNone = true
+    ∧ (parsePolicy (goCfgWith 64 false hi0) (Policy.str hi0 polSpecComma)).isNone = true
+    ∧ (parsePolicy (goCfgWith 64 true hi0) (Policy.str hi0 polSpecComma)).isSome = true := by decide
 
-/-! ## SpendPolicy.String / ParseSpendPolicy: the round trip -/
-
-/-- the parser configuration read from the source is the one the proofs are written for
-    (delimiter set "(),[]", 64-bit heights and timelocks, 8-bit thresholds, 16-byte specifiers);
-    the signature-count width is left to the source -/
-theorem tie_policy_cfg (hi : Nat → Bool) : CfgStd (goCfg hi) :=
-  ⟨rfl, rfl, rfl, rfl, rfl⟩
-
-/-
-  Full statement (FALSE on the code as found, see the two counterexamples above):
-
-    theorem c20_policy_string_roundtrip (hi) (p : Policy) (hwf : p.WF) :
-        parsePolicy (goCfg hi) (Policy.str hi p) = some p
-
-  What is proved: the same, with the two failing corners excluded by explicit hypotheses —
-    `hsig`  (F2) every `uc` signature count is below 2^(bit size the parser passes to its
-            integer reader); with the source at 8 bits this excludes counts > 255, with 64 bits
-            it excludes nothing (`c20_policy_string_sigfits_64`);
-    `hkeys` (F3) no `uc` key text contains one of the delimiters "(),[]"; only a quoted
-            (non-alphanumeric) algorithm specifier can (`c20_policy_string_keys_safe_alnum`).
--/
-theorem c20_policy_string_roundtrip_partial (hi : Nat → Bool) (p : Policy) (hwf : p.WF)
-    (hsig : p.SigFits Gen.FactsText.ucSigBits) (hkeys : p.KeysSafe hi) :
-    parsePolicy (goCfg hi) (Policy.str hi p) = some p :=
-  parsePolicy_str (tie_policy_cfg hi) hi p hwf hsig hkeys
-
-/-- the same for any configuration of the standard shape (used for "after the repair") -/
-theorem c20_policy_string_roundtrip_cfg_partial (cfg : Cfg) (hc : CfgStd cfg) (hi : Nat → Bool) (p : Policy)
-    (hwf : p.WF) (hsig : p.SigFits cfg.ucSigBits) (hkeys : p.KeysSafe hi) :
-    parsePolicy cfg (Policy.str hi p) = some p :=
-  parsePolicy_str hc hi p hwf hsig hkeys
-
-/-- once the parser reads the count with the printer's 64 bits, exclusion F2 is vacuous -/
-theorem c20_policy_string_sigfits_64 (h : Gen.FactsText.ucSigBits = 64) (p : Policy) (hwf : p.WF) :
-    p.SigFits Gen.FactsText.ucSigBits := by
-  rw [h]; exact sigFits_of_wf p hwf
-
-/-- exclusion F3 only bites for quoted specifiers: alphanumeric algorithm names are always safe -/
-theorem c20_policy_string_keys_safe_alnum (hi : Nat → Bool) (tl sg : Nat) (ks : List UnlockKey)
-    (h : ∀ k ∈ ks, (trimZeros k.alg).all isAlnum = true) : (Policy.uc tl ks sg).KeysSafe hi := by
-  intro k hk
-  exact ukText_safe_of_alnum hi k (h k hk)
+/-- … and conditional on the generated fact, about the parser as the source has it -/
+theorem c20_policy_string_cex_specifier_src (h : Gen.FactsText.ukQuotedPrefix = false) :
+    (parsePolicy (goCfg hi0) (Policy.str hi0 polSpecComma)).isNone = true := by
+  unfold goCfg
+  rw [h]
+  rcases tie_policy_bits.2.2.2.2.2.2.2 with h8 | h64
+  · rw [h8]; exact c20_policy_string_cex_specifier.1
+  · rw [h64]; exact c20_policy_string_cex_specifier.2.1
 
 /-- hypotheses are satisfiable by a non-trivial policy: a threshold over every kind,
-    including a `uc` with a quoted (non-alphanumeric, delimiter-free) specifier -/
+    including a `uc` with 2^40 required signatures, a quoted specifier containing
+    delimiters, a quote and a space, and an empty key -/
 def polDemo : Policy :=
   .thresh 2 (.cons (.above 100) (.cons (.after (-5)) (.cons (.pk (List.replicate 32 7))
     (.cons (.uc 9 [⟨[101, 100, 50, 53, 53, 49, 57, 0, 0, 0, 0, 0, 0, 0, 0, 0], [1, 2]⟩,
-                    ⟨[97, 32, 34, 98, 0, 0, 0, 0, 0, 0, 0, 0, 0, 0, 0, 0], []⟩] 200)
+                    ⟨[97, 32, 34, 98, 44, 40, 93, 0, 0, 0, 0, 0, 0, 0, 0, 0], []⟩] 1099511627776)
       (.cons (.thresh 0 .nil) .nil)))))
 
-theorem polDemo_wf : polDemo.WF ∧ polDemo.SigFits 8 := by
-  simp [polDemo, Policy.WF, PolicyList.WF, Policy.SigFits, PolicyList.SigFits]
+theorem polDemo_wf : polDemo.WF := by
+  simp [polDemo, Policy.WF, PolicyList.WF]
 
-theorem polDemo_keys : polDemo.KeysSafe hi0 := by
-  simp only [polDemo, Policy.KeysSafe, PolicyList.KeysSafe, and_true, true_and]
-  decide
-
-example : parsePolicy (goCfgWith 8 hi0) (Policy.str hi0 polDemo) = some polDemo :=
-  c20_policy_string_roundtrip_cfg_partial _ ⟨rfl, rfl, rfl, rfl, rfl⟩ hi0 polDemo polDemo_wf.1 polDemo_wf.2 polDemo_keys
+example : parsePolicy (goCfg hi0) (Policy.str hi0 polDemo) = some polDemo :=
+  c20_policy_string_roundtrip hi0 polDemo polDemo_wf
 
 end C20
